@@ -1,0 +1,49 @@
+//go:build verif
+
+// Contracts for govc (/verif): C11 "Historical consensus views depend only on earlier ledger records" — custodian half. Comment-only file.
+// Key space and T-KV vocabulary: zz_contracts_c03_verif.go; iterator model: /verif/govc/trusted/badger.spec; sync.Map: trusted/c11.spec.
+
+package storage
+
+//@ -- ═════════ key space: CUSTODIANUPDATE | be64(timestamp) ═════════
+//@ -- ASSUMED like the rest of the key space (argued from the constructor graphCustodianUpdateKey): fixed width, no other prefix of
+//@ -- badger_graph.go is an initial segment of "CUSTODIANUPDATE" or extends it, byte order of the big-endian suffix == numeric order.
+//@ uninterp CustKeyId(t mathint) mathint
+//@ axiom forall t mathint :: {CustKeyId(t)} 0 <= t && t < 18446744073709551616 ==> keykind(CustKeyId(t)) == 21 && keynum(CustKeyId(t)) == t &&
+//@     badger.keypfx(CustKeyId(t), strkey(graphPrefixCustodianUpdate)) == 0
+//@ axiom forall x, y mathint :: {badger.keylt(CustKeyId(x), CustKeyId(y))} 0 <= x && x < 18446744073709551616 && 0 <= y && y < 18446744073709551616 ==>
+//@     (badger.keylt(CustKeyId(x), CustKeyId(y)) <==> x < y)
+//@ spec IsCustKey(k mathint) bool = k == CustKeyId(keynum(k)) && 0 <= keynum(k) && keynum(k) < 18446744073709551616
+//@ -- CustAt(t, ts): value id (the 32 bytes of a transaction hash) of the custodian record at timestamp ts, 0 = none
+//@ spec CustAt(t badger.Txn, ts mathint) mathint = badger.kvget(t, CustKeyId(ts))
+
+//@ assume func graphCustodianUpdateKey
+//@   modifies nothing
+//@   ensures fresh(result) && len(result) > 0 && kvkey(result) == CustKeyId(ts)
+//@ -- graphCustodianAccountTimestamp slices key[15:] and reads 8 bytes: it panics on anything shorter than a custodian key
+//@ assume func graphCustodianAccountTimestamp
+//@   requires [cust-key] IsCustKey(kvkey(key))
+//@   modifies nothing
+//@   ensures result == keynum(kvkey(key))
+
+//@ -- ═════════ the deep copy handed to callers ═════════
+//@ -- cloneCustodianUpdate: a NEW request with the same content (every pointer-held part copied: custodian, signature, nodes and their
+//@ -- extra bytes), carrying the given transaction hash and timestamp; the source object is not written (`modifies nothing`).
+//@ spec ReqShape(o *common.CustodianUpdateRequest) bool = o != nil && !fresh(o) && !fresh(o.Nodes) &&
+//@     (forall k int :: {o.Nodes[k]} 0 <= k && k < len(o.Nodes) ==> o.Nodes[k] != nil && !fresh(o.Nodes[k]) && len(o.Nodes[k].Extra) == 353 && !fresh(o.Nodes[k].Extra))
+//@ func cloneCustodianUpdate
+//@   property C11
+//@   requires ReqShape(cur)
+//@   modifies nothing
+//@   ensures [new] result != nil && fresh(result) && result.Transaction == hash && result.Timestamp == ts
+//@   ensures [content] common.SameReq(result, cur)
+//@   ensures [deep] (result.Custodian == nil || fresh(result.Custodian)) && (result.Signature == nil || fresh(result.Signature)) &&
+//@       (len(result.Nodes) == 0 || fresh(result.Nodes)) &&
+//@       (forall k int :: {result.Nodes[k]} 0 <= k && k < len(result.Nodes) ==> fresh(result.Nodes[k]) && fresh(result.Nodes[k].Extra))
+//@   hint at "cloned.Nodes[i] = &clonedNode" [extra-copied] len(clonedNode.Extra) == 353 && fresh(clonedNode.Extra)
+//@   -- the loop writes byte blocks allocated after it started only (the new nodes and their extra bytes)
+//@   loop 0 invariant [kept] forall p *crypto.Key :: {*p} loopentry(allocated(p)) ==> *p == loopentry(*p)
+//@   loop 0 invariant [nodes] len(cloned.Nodes) == len(cur.Nodes) && fresh(cloned.Nodes) && loopentry(allocated(cloned.Nodes))
+//@   loop 0 invariant [copied] forall k int :: {cloned.Nodes[k]} 0 <= k && k <= rangeindex ==> cloned.Nodes[k] != nil && fresh(cloned.Nodes[k]) && allocated(cloned.Nodes[k]) &&
+//@       cloned.Nodes[k].Custodian == cur.Nodes[k].Custodian && cloned.Nodes[k].Payee == cur.Nodes[k].Payee &&
+//@       len(cloned.Nodes[k].Extra) == 353 && fresh(cloned.Nodes[k].Extra) && allocated(cloned.Nodes[k].Extra)
